@@ -87,14 +87,16 @@ func c09Cells(m *sgen.Model, a *sgen.Archive, r *core.Rand) []c09Cell {
 			if k%2 == 0 && len(m.ShapePts) > 0 {
 				id = m.ShapePts[0].Shape
 			}
-			return []string{id, "1.5", "2.5", "7", ""}
+			return []string{id, "1.5", "2.5", core.Pick(r, []string{"7", "0", "1", "2", "10", "100", "2147483647"}), ""}
 		},
 		"trips.txt": func(k int) []string {
 			return []string{m.Routes[0].ID, validService, fresh("trip", k), "", "", "", "", "", "0", "0"}
 		},
 		"frequencies.txt": func(k int) []string { return []string{tripID(), "08:00:00", "09:00:00", "600", "0"} },
 		"stop_times.txt": func(k int) []string {
-			return []string{tripID(), "08:00:00", "08:00:00", stopID(r.Intn(len(m.Stops))), "5000", "", "0", "0", "1", "1", "", "1"}
+			// the rejected row's own sequence number varies: below, between and above the sequences of the trip's valid rows
+			seq := core.Pick(r, []string{"5000", "0", "1", "2", "3", "7", "10", "15", "60", "100", "2147483648"})
+			return []string{tripID(), "08:00:00", "08:00:00", stopID(r.Intn(len(m.Stops))), seq, "", "0", "0", "1", "1", "", "1"}
 		},
 	}
 	set := func(file, col, val string, base func(int) []string) func(int) []string {
